@@ -353,7 +353,7 @@ impl Prop for C12 {
         let max: usize = tier.pick(40, 90);
         (
             0..KINDS.len(),
-            prop_oneof![2 => 1..=6_usize, 5 => 5..=16_usize, 3 => 17..=max],
+            prop_oneof![8 => 1..=6_usize, 20 => 5..=16_usize, 11 => 17..=max, 1 => 63..=70_usize],
             vec((any::<u16>(), any::<u16>()), 1000),
             any::<u8>(),
             1..=16_usize,
